@@ -87,7 +87,7 @@ def c06_plan(tier):
 
 def c07_plan(tier):
     if tier == "quick":
-        return plan(["B1@3/2", "B1,cmp=1@0/2", NOCASE + "@0/2", "B1@2^" + L_DEEP, "B1@2^" + L_TOMB, "B1,mof=11@1^" + L_DEEP, "B1@1^" + L_BOTTOM, "B1@1^" + L_SST])
+        return plan(["B1@3/2", "B2@0/2", "B1,cmp=1@0/2", NOCASE + "@0/2", "B1@2^" + L_DEEP, "B1@2^" + L_TOMB, "B1,mof=11@1^" + L_DEEP, "B1@1^" + L_BOTTOM, "B1@1^" + L_SST])
     return plan(["B1@4/3", "B1,cmp=1@3/3", NOCASE + "@3/3", NOCASE + "@2^P0.1 F P1.1 F P3.1 P4.1", "B1,snappy=1,bloom=1,mmap=0@3/2", "B2@2/2", "B1@3^" + L_DEEP, "B1@3^" + L_TOMB,
                  "B1@3^I " + L_DEEP, "B1,cmp=1@2^" + L_DEEP, "B1@2^" + L_SNAP, "B1,mof=11@2^I " + L_DEEP, "B1@2^" + L_BOTTOM, "B1,cmp=1@2^" + L_BOTTOM])
 
@@ -253,8 +253,8 @@ PROPS["C08"] = dict(
     rule="for each scenario every schedule within the deviation bound is executed on a fresh copy of the scenario's initial image; oracle: a total order of the <=12 recorded operations exists that respects real time and explains every get, snapshot read, iterator scan and the final state; distinct = distinct result vectors",
     distinct_key="outcomes", assumptions=E1_ASSUME,
     stages=[dict(name="mc", driver="mc", flavour="asan", args=["--prop", "C08"],
-                 quick=["--scenarios", "D1,D1f,D2,D2b,D2c,D3,D4,D4b,D16,D17,D5,D6,D10,D11", "--bound", "2"],
-                 thorough=["--scenarios", "D1,D1f,D2,D2b,D2c,D4,D4b,D4c,D16,D17,D5,D6,D10,D11,D3", "--bound", "3"]),
+                 quick=["--scenarios", "D1,D1f,D2,D2b,D2c,D3,D4,D4b,D16,D17,D18,D19,D5,D6,D10,D11", "--bound", "2"],
+                 thorough=["--scenarios", "D1,D1f,D2,D2b,D2c,D4,D4b,D4c,D16,D17,D18,D19,D5,D6,D10,D11,D3", "--bound", "3"]),
             dict(name="mc-io", driver="mc", flavour="asan", args=["--prop", "C08", "--io", "1"], tiers=["thorough"],
                  thorough=["--scenarios", "D1,D1f,D2,D4,D11", "--bound", "2"])],
 )
@@ -515,9 +515,30 @@ PROPS["C01"]["rule"] += ("; environment-conformance stage (binds the file-system
 # C06 "for as long as the snapshot is held, regardless of later writes ...": a snapshot taken while a write is in flight,
 # held across the completion of that write, a flush and a compaction, and re-read through lookups and an iterator
 PROPS["C06"]["stages"].append(dict(name="mc-held", driver="mc", flavour="asan", args=["--prop", "C06"], weight=0.4,
-                                   quick=["--scenarios", "D18,D18f,D10", "--bound", "2"],
-                                   thorough=["--scenarios", "D18,D18f,D10,D5", "--bound", "3"]))
-PROPS["C06"]["rule"] += ("; concurrent stage: a snapshot taken at any point of an in-flight batch write (overwrite + delete), of a memtable switch and of a manual compaction (scenarios D18, D18f; snapshot churn D10, D5) "
+                                   quick=["--scenarios", "D18,D18f,D19,D10", "--bound", "2"],
+                                   thorough=["--scenarios", "D18,D18f,D19,D10,D5", "--bound", "3"]))
+PROPS["C06"]["rule"] += ("; concurrent stage: a snapshot taken at any point of an in-flight batch write (overwrite + delete), of a memtable switch and of a manual compaction (scenarios D18, D18f; D19: two live snapshots of different age across a merging compaction; snapshot churn D10, D5) "
                          "is held while those complete, every schedule within 2 -> 3 deviations: lookups and an iterator through the SAME snapshot return what it first showed, and that view is one point of a sequential order")
 PROPS["C06"]["assumptions"] = PROPS["C06"]["assumptions"] + E1_ASSUME[:3]
 PROPS["C06"]["technique"] += "; plus stateless schedule exploration of held snapshots racing writes, flushes and compactions"
+
+# C02 / C03 under LEGAL short transfers (a write(2) or read(2) that moves fewer bytes than asked for and fails nothing):
+# the environment may answer so at any call; acknowledged (sync) writes must still survive the power loss / the kill
+PROPS["C02"]["stages"].append(dict(name="short-transfers-power", driver="fault", flavour="asan", args=["--prop", "C02"], weight=0.2,
+                                   quick=["--cfgs", "B1", "--len", "2", "--scripted", "1"],
+                                   thorough=["--cfgs", "B1;B1,reuse=1;B1,mmap=0", "--len", "3", "--scripted", "1", "--wide", "1"]))
+PROPS["C02"]["rule"] += ("; short-transfer stage: for every read(2)/write(2) of every history (<= 2 -> 3 operations + scripted) one call moves only 1, half or all-but-one of the bytes asked for and nothing fails; "
+                         "power fails at the end of the run (directory operations up to the last fsync, files at synced length): the database opens and holds every batch acknowledged with sync")
+PROPS["C03"]["stages"].append(dict(name="short-transfers-kill", driver="fault", flavour="asan", args=["--prop", "C01"], weight=0.2,
+                                   quick=["--cfgs", "B1", "--len", "2", "--scripted", "1"],
+                                   thorough=["--cfgs", "B1;B1,reuse=1;B1,mmap=0", "--len", "3", "--scripted", "1", "--wide", "1"]))
+PROPS["C03"]["rule"] += ("; short-transfer stage: the same enumeration of legal short reads/writes, the process is killed at the end of the run (image = everything written) or closes: "
+                         "every operation returned OK, and after reopen every acknowledged batch is present")
+for _p in ("C02", "C03"):
+    PROPS[_p]["assumptions"] = PROPS[_p]["assumptions"] + ["short-transfer stage: one system call per run transfers fewer bytes than requested (1, half, all-but-one), no call fails"]
+# C01 with concurrent writers: linearizability of plain puts/gets implies 'a read returns the latest write' when the writes
+# were merged by group commit (leader + queued followers over disjoint keys)
+PROPS["C01"]["stages"].append(dict(name="mc-writers", driver="mc", flavour="asan", args=["--prop", "C08"], weight=0.2,
+                                   quick=["--scenarios", "D2c,D1", "--bound", "2"], thorough=["--scenarios", "D2c,D1,D1f,D16", "--bound", "3"]))
+PROPS["C01"]["rule"] += "; concurrent-writers stage: writes issued by 2-3 threads at once (group commit with queued followers over disjoint keys, scenarios D2c, D1): every schedule within 2 -> 3 deviations, every get and the final scan return the latest write of a sequential order of the operations"
+PROPS["C01"]["assumptions"] = PROPS["C01"]["assumptions"] + E1_ASSUME[:3]
